@@ -5,7 +5,7 @@ From Dae Require Import C10_Spec C10_Model C10_Cache C10_Ctl_Model C10_Ctl_Proof
 Import ListNotations.
 Open Scope N_scope.
 
-(* After EVERY history of controller operations (insert/replace, exact removal, family removal,
+(* After EVERY history of controller operations in which the re-sync tasks of reloads were delivered (insert/replace, exact removal, family removal,
    evict-if-same, lookup of an expired entry or with a re-sync, janitor with time-based and LRU eviction
    for any victim order the selection may produce, reload hand-over), under any configuration, clock
    and rule sets: the history of calls issued to the tracker of the current generation has, owner by
@@ -14,6 +14,7 @@ Open Scope N_scope.
    are what those calls produce from a fresh tracker and an empty map. *)
 Theorem C10_ctl_calls_track_cache :
   forall (cfg : config) (rules : N -> N) (ops : list ctl_op),
+    Forall resync_delivered ops ->
     let st := ctl_run cfg rules ops in
     (forall k, cache_live (c_calls st) (key_id k) = option_map ce_e (c_load (c_cache st) k)) /\
     (forall o, (forall k, key_id k <> o) -> cache_live (c_calls st) o = None) /\
@@ -24,9 +25,12 @@ Print Assumptions C10_ctl_calls_track_cache.
 
 (* Hence (with C10_cache_mirror): after every such history, across reloads, the kernel table holds at
    every address exactly the OR of the bitmaps of the controller's live cache entries listing it, and
-   no entry when none does. *)
+   no entry when none does.  PARTIAL: the hypothesis `Forall resync_delivered ops` says that every
+   re-sync task queued by RestoreReloadCache found room in the bounded task queue (bpfUpdateQueueSize =
+   1024, non-blocking send); the statement without it is C10_ctl_mirror_full, refuted below. *)
 Theorem C10_ctl_mirror :
   forall (cfg : config) (rules : N -> N) (ops : list ctl_op) (ip : N),
+    Forall resync_delivered ops ->
     let st := ctl_run cfg rules ops in
     c_kmap st ip = ctl_table_entry (c_cache st) ip.
 Proof. exact C10_ctl_mirror_proof. Qed.
@@ -42,6 +46,13 @@ Theorem C10_ctl_owner_key_scoped :
     ce_owner e1 <> ce_owner e2 /\ ce_owner e1 = key_id k1 /\ ce_owner e2 = key_id k2.
 Proof. exact C10_ctl_owner_key_scoped_proof. Qed.
 Print Assumptions C10_ctl_owner_key_scoped.
+
+(* The full statement (no hypothesis on the task queue) and its refutation in the faithful model: one
+   cached name, then a reload whose re-sync send found the queue full - the entry is live in the new
+   generation's cache and the (cleared) kernel table has nothing for its address. *)
+Theorem C10_ctl_mirror_full_refuted : ~ C10_ctl_mirror_full.
+Proof. exact C10_ctl_mirror_full_refuted_proof. Qed.
+Print Assumptions C10_ctl_mirror_full_refuted.
 
 (* The numbering of key strings is injective, so distinct cache keys never share an owner. *)
 Theorem C10_ctl_key_id_injective : forall a b : ckey, key_id a = key_id b -> a = b.
@@ -63,7 +74,7 @@ Example C10_ctl_nonvacuous :
   probe ops = [Some 5; Some 1; Some 1]
   /\ probe (ops ++ [ORemove k1]) = [Some 5; None; Some 1]
   /\ probe (ops ++ [ORemove k1; OFamily 1]) = [Some 4; None; None]
-  /\ probe (ops ++ [ORemove k1; OReload (fun f => if f =? 7 then 2 else 8)]) = [Some 10; None; Some 2]
+  /\ probe (ops ++ [ORemove k1; OReload (fun f => if f =? 7 then 2 else 8) (fun _ => true)]) = [Some 10; None; Some 2]
   /\ probe (ops ++ [OJanitor (102 + 60 * 1000000000) []]) = [None; None; None]
   /\ map (fun k => option_map ce_owner (c_load (c_cache (ctl_run cfg rules ops)) k)) [k1; k2; k3]
      = [Some 6; Some 10; Some 4].
